@@ -625,6 +625,7 @@ def runLine (l : String) : String :=
     | "failover.accept" => ChainAccept.cmdFailoverAccept a
     | "swap.accept" => ChainAccept.cmdSwapAccept a
     | "pool.accept" => PoolAccept.cmd a
+    | "poolcs.accept" => PoolAccept.cmdCS a
     | "store.name" => cmdStoreName a
     | "prune.classify" => cmdPruneClassify a
     | "prune.run" => cmdPruneRun a
